@@ -826,6 +826,14 @@ class PuritySim:
                 op = {"op": "read", "client": client["name"], "target": target, "q": rs.choice(calls)}
                 hist.append(op)
                 del hist[:-10]
+                if rs.random() < 0.3:
+                    # near-miss repetition: the same question again with ONE real-valued argument moved by a part in ten million
+                    # (verbatim repetition finds state keyed too finely or not at all; this finds state keyed too coarsely - a
+                    # rounded or tolerance-compared key answers the second request with the first request's value)
+                    near = near_miss(op["q"], rs)
+                    if near is not None:
+                        client["queue"].insert(0, {"op": "read", "client": client["name"], "target": target, "q": near})
+                        self.probe("near_miss_repetition")
                 return op
         if not names:
             return None
@@ -907,6 +915,45 @@ class PuritySim:
 
 
 # ---------------------------------------------------------------------------------------------------
+
+
+def near_miss(q, rs):
+    """q with one float leaf of its keyword arguments (inside $tuple / plain lists; never an integer, a node or an array) moved by
+    a relative 1e-7, or None when it has no such leaf"""
+    import copy
+
+    q2 = copy.deepcopy(q)
+    leaves = []
+
+    def walk(v):
+        if isinstance(v, dict):
+            for k, x in v.items():
+                if k in ("$node", "$attr", "$arr", "$ints", "$cls", "$selfprop", "$over_dataset", "$shape"):
+                    continue
+                if isinstance(x, list):
+                    for i, y in enumerate(x):
+                        if isinstance(y, float):
+                            leaves.append((x, i))
+                        else:
+                            walk(y)
+                elif isinstance(x, float):
+                    leaves.append((v, k))
+                else:
+                    walk(x)
+        elif isinstance(v, list):
+            for i, y in enumerate(v):
+                if isinstance(y, float):
+                    leaves.append((v, i))
+                else:
+                    walk(y)
+
+    walk(q2.get("kw", {}))
+    if not leaves:
+        return None
+    box, key = rs.choice(leaves)
+    x = box[key]
+    box[key] = x * (1.0 + 1.0e-7) if x != 0.0 else 1.0e-9
+    return q2
 
 
 def execute(run_seed, case, cfg, known):
